@@ -180,6 +180,9 @@ func impliesWide(cp core.CondPol, f *ssa.Function, depth int) bool {
 			return true
 		}
 	}
+	if _, isCmp := cp.Cond.(*ssa.BinOp); isCmp {
+		return false // a direct comparison is judged above, never as an accumulated flag
+	}
 	if k, ok := flagKind(cp.Cond, f, depth); ok {
 		return (k == "unicode" && cp.Pol) || (k == "ascii" && !cp.Pol)
 	}
@@ -202,8 +205,10 @@ func impliesNarrow(cp core.CondPol, f *ssa.Function, depth int) bool {
 			return true
 		}
 	}
-	if k, ok := flagKind(cp.Cond, f, depth); ok {
-		return (k == "unicode" && !cp.Pol) || (k == "ascii" && cp.Pol)
+	if _, isCmp := cp.Cond.(*ssa.BinOp); !isCmp {
+		if k, ok := flagKind(cp.Cond, f, depth); ok {
+			return (k == "unicode" && !cp.Pol) || (k == "ascii" && cp.Pol)
+		}
 	}
 	// StringBuilder.ascii(): no UTF-16 buffer started
 	if c, ok := cp.Cond.(*ssa.Call); ok && cp.Pol {
@@ -758,7 +763,8 @@ func asciiIdiom(p *core.Prog, f *ssa.Function, in ssa.Instruction, x ssa.Value) 
 			continue
 		}
 		for pol, succ := range map[bool]*ssa.BasicBlock{true: b.Succs[0], false: b.Succs[1]} {
-			if impliesWide(core.CondPol{Cond: ifi.Cond, Pol: pol, If: ifi}, f, 0) {
+			// a scan test: one edge means "wide unit seen", the other must mean "this unit is < 0x80"
+			if impliesWide(core.CondPol{Cond: ifi.Cond, Pol: pol, If: ifi}, f, 0) && impliesNarrow(core.CondPol{Cond: ifi.Cond, Pol: !pol, If: ifi}, f, 0) {
 				hasTest = true
 				if core.Reaches(succ, in.Block()) {
 					reach = true
@@ -962,14 +968,49 @@ func unicodeSliceIdiom(p *core.Prog, f *ssa.Function, in ssa.Instruction) (strin
 	if why, ok := strBirthExceptions[core.FuncName(f)+":unicode-slice"]; ok {
 		return "table exception: " + why, true
 	}
-	for _, cp := range core.ControllingConds(in.Block()) {
-		if impliesWide(cp, f, 0) {
-			return "created where unit->=0x80 evidence holds", true
-		}
+	partial := false
+	if sl, ok := in.(*ssa.Slice); ok && sl.High != nil {
+		partial = true // a bounded sub-range: "the source is UTF-16" says nothing about it
 	}
-	if _, isMake := in.(*ssa.MakeSlice); isMake {
+	for _, cp := range core.ControllingConds(in.Block()) {
+		if !impliesWide(cp, f, 0) {
+			continue
+		}
+		if _, _, isNil := core.IsNilCompare(cp.Cond); isNil && partial {
+			continue
+		}
+		return "created where unit->=0x80 evidence holds", true
+	}
+	if mk, isMake := in.(*ssa.MakeSlice); isMake {
 		if recv := f.Signature.Recv(); recv != nil && core.IsGojaNamed(recv.Type(), "unicodeString") {
-			return "method of unicodeString copying its whole receiver into the new buffer (has a wide unit by induction)", true
+			// the whole receiver must be copied into the new buffer
+			whole := false
+			var visit func(v ssa.Value, d int)
+			visit = func(v ssa.Value, d int) {
+				if d > 3 {
+					return
+				}
+				for _, r := range core.Referrers(v) {
+					switch x := r.(type) {
+					case *ssa.Slice:
+						visit(x, d+1)
+					case *ssa.Call:
+						if b, ok := x.Call.Value.(*ssa.Builtin); ok && b.Name() == "copy" && len(x.Call.Args) == 2 {
+							src := x.Call.Args[1]
+							if sl, ok := src.(*ssa.Slice); ok && sl.High == nil {
+								src = sl.X
+							}
+							if core.Origin(src) == f.Params[0] {
+								whole = true
+							}
+						}
+					}
+				}
+			}
+			visit(mk, 0)
+			if whole {
+				return "method of unicodeString copying its whole receiver into the new buffer (has a wide unit by induction)", true
+			}
 		}
 	}
 	return "", false
